@@ -60,6 +60,19 @@ def main(argv=None):
         if args.tier == 'thorough' and not only:
             from . import mut
             extra_cov, extra_unknown = mut.audit(forest, prop, results, jobs=args.jobs or (os.cpu_count() or 4))
+            if not args.no_evidence:
+                # the audit numbers of the last thorough run are kept apart from the evidence file (which the next quick run rewrites)
+                import json
+                import subprocess
+                os.makedirs(os.path.join(core.VERIF, 'audit'), exist_ok=True)
+                keep = {k: extra_cov.get(k) for k in ('mutants', 'mutation_sites_in_anchors', 'mutants_reported', 'mutants_analysis_error', 'mutants_not_reported',
+                                                        'kills_by_rule', 'seeded_variants', 'benign_variants')}
+                keep['survivors'] = extra_cov.get('survivors', [])[:40]
+                keep['property_id'] = prop
+                keep['repo_commit'] = subprocess.run(['git', '-C', forest.root or '/repo', 'rev-parse', '--short', 'HEAD'], capture_output=True, text=True).stdout.strip()
+                keep['obligations'] = sum(len(rr.obs) for rr in results)
+                with open(os.path.join(core.VERIF, 'audit', f'{prop}.json'), 'w', encoding='utf-8') as f:
+                    json.dump(keep, f, indent=1, ensure_ascii=False)
         code, _ = core.summarize(prop, args.tier, results, fx, t0, extra_cov=extra_cov,
                                  write=not only and not args.no_evidence, extra_violations=extra_viol, extra_unknown=extra_unknown)
         return code
